@@ -579,6 +579,11 @@ class UserTrackingManager:
                 # to start tracking again, the user cannot be removed otherwise
                 # there is a "ghost" user being tracked
                 if tracked_user.queue.empty():
+                    # Remove the entry in the same step as the emptiness check:
+                    # the done callback of this task only runs one loop
+                    # iteration after returning, a request made in between
+                    # would be put on a queue that is no longer read
+                    self._remove_tracked_user(tracked_user)
                     request.handled.set()
                     return
 
@@ -707,7 +712,15 @@ class UserTrackingManager:
             )
 
         finally:
-            self._tracked_users.pop(tracked_user.user.name, None)
+            self._remove_tracked_user(tracked_user)
+
+    def _remove_tracked_user(self, tracked_user: TrackedUser):
+        """Removes the tracked user object, unless it was already replaced by
+        a newer object for the same user
+        """
+        username = tracked_user.user.name
+        if self._tracked_users.get(username) is tracked_user:
+            del self._tracked_users[username]
 
     async def _on_state_changed(self, event: ConnectionStateChangedEvent):
         if not isinstance(event.connection, ServerConnection):
